@@ -157,6 +157,50 @@ def merge_close_cases(reps=15):
     return out
 
 
+def _node(k, src=(), cap=0, items=(), n=0, idx=0, skip=0):
+    return {"k": k, "src": list(src), "cap": cap, "items": list(items), "n": n, "idx": idx, "skip": skip}
+
+
+def wide_merge_cases(rnd, conc_reps=5):
+    """Merges of 4, 5, 6 and 7 pipes (5 is the largest static select of schema/select.go, 6 the first reflect.Select): one directed
+    sequential history per width (every source sends one item, everything is received, writers close, EOF) and seeded concurrent cases.
+    A Recv that never returns is a `hang` line (per-case watchdog), which no rule accepts."""
+    out = []
+    for k in (4, 5, 6, 7):
+        def tree(cap, nitems):
+            return [_node("pipe", cap=cap, items=[i * 10 + j for j in range(1, nitems + 1)]) for i in range(1, k + 1)] + \
+                   [_node("merge", src=range(1, k + 1))]
+        leaf = k + 1
+        ops = [{"a": i, "op": "send"} for i in range(1, k + 1)] + [{"a": leaf, "op": "recv"}] * k
+        ops += [{"a": i, "op": "closeSend"} for i in range(1, k + 1)] + [{"a": leaf, "op": "recv"}, {"a": leaf, "op": "close"}]
+        out.append({"id": "wm%d-seq" % k, "mode": "seq", "shape": "merge%d" % k, "tree": tree(1, 1), "ops": ops, "seed": 0, "pclose": 0})
+        for r in range(conc_reps):
+            out.append({"id": "wm%d-c%d" % (k, r), "mode": "conc", "shape": "merge%d" % k, "tree": tree(rnd.choice([0, 1]), 2 if k <= 5 and r % 2 else 1),
+                        "ops": [], "seed": rnd.randrange(1 << 30), "pclose": rnd.choice([0, 0, 1])})
+    return out
+
+
+def precopy_cases(rnd, reps=3):
+    """"Read k items, then Copy(n), then read the copies" on array-backed, pipe-backed and convert-wrapped sources (copy node idx = k):
+    the pre-reader's calls are logged at the source reader's node id during construction, the copies are driven concurrently."""
+    out = []
+    for src in ("array", "conv(array)", "skip(array)", "pipe", "conv(pipe)"):
+        for k in (1, 2):
+            for n in (2, 3):
+                for r in range(reps):
+                    items = [11, 12, 13, 14] if "array" in src else [11, -12 if r == 1 else 12, 13, 14]
+                    root = _node("array", items=items) if "array" in src else _node("pipe", cap=rnd.choice([1, 2]), items=items)
+                    tree = [root]
+                    if "(" in src:
+                        tree.append(_node("conv", src=[1], skip=2 if src.startswith("skip") else 0))
+                    top = len(tree)
+                    tree.append(_node("copy", src=[top], n=n, idx=k))
+                    tree += [_node("child", src=[top + 1], idx=i) for i in range(n)]
+                    out.append({"id": "pc-%s-%d-%d-%d" % (src, k, n, r), "mode": "conc", "shape": "precopy:" + src, "tree": tree, "ops": [],
+                                "seed": rnd.randrange(1 << 30), "pclose": rnd.choice([0, 0, 1])})
+    return out
+
+
 # ------------------------------------------------------------------------------------------------ real runs
 
 _RACE = re.compile(r"WARNING: DATA RACE\n(.*?)\n==================", re.S)
